@@ -119,3 +119,35 @@ Theorem C01_chunk_roundtrip :
     rd_in d1 = tail /\ rd_code d1 = 0 /\ rd_over d1 = 0.
 Proof. exact chunk_roundtrip. Qed.
 Print Assumptions C01_chunk_roundtrip.
+
+(* Non-vacuity: a concrete instance of every hypothesis of C01_chunk_roundtrip
+   (data "abababa" parsed as two literals and a match of length 5 at distance 2). *)
+Example C01_chunk_example :
+  let h := LzmaWriters.ehist_new 4096 [] [97; 98; 97; 98; 97; 98; 97] in
+  let c := coder_new 3 0 2 in
+  let w := lzwin_set_limit (lzwin_new 4096 None) 7 in
+  exists evs c' h',
+    enc_syms c h [SLit 97; SLit 98; SMatch 1 5] = Ok (evs, c', h') /\
+    no_end [SLit 97; SLit 98; SMatch 1 5] /\ hist_rel h [] /\ data_ok h /\ reps_nonneg c /\
+    h_dict h <= 2147483648 /\ h_dict h <= w_size w /\ events_bits evs <= RC_MAX_BITS /\
+    Rel w [] /\ coder_ok c (w_full w) /\ w_pending_len w = 0 /\
+    Z.of_nat 7 = h_pos h' - h_pos h /\ w_limit w = w_pos w + Z.of_nat 7.
+Proof.
+  cbv zeta.
+  destruct (enc_syms (coder_new 3 0 2) (LzmaWriters.ehist_new 4096 [] [97; 98; 97; 98; 97; 98; 97])
+              [SLit 97; SLit 98; SMatch 1 5]) as [[[evs c'] h']|e|e|] eqn:E;
+    try (vm_compute in E; discriminate).
+  exists evs, c', h'. split; [reflexivity|].
+  assert (Hpos : h_pos h' = 7 /\ events_bits evs <= RC_MAX_BITS).
+  { vm_compute in E. inversion E; subst. vm_compute. split; [reflexivity | discriminate]. }
+  destruct Hpos as (Hpos & Hbits).
+  split; [intros s [<-|[<-|[<-|[]]]]; discriminate|].
+  split; [split; [reflexivity|]; split; [vm_compute; discriminate|]; intros d Hd; unfold zlen in Hd; cbn [length Z.of_nat] in Hd; lia|].
+  split; [apply data_ok_new; reflexivity|].
+  split; [unfold reps_nonneg, coder_new; cbn; lia|].
+  split; [vm_compute; discriminate|]. split; [vm_compute; discriminate|]. split; [exact Hbits|].
+  destruct (set_limit_rel (lzwin_new 4096 None) [] 7 (lzwin_new_rel 4096 ltac:(reflexivity) ltac:(reflexivity)) ltac:(discriminate)) as (HR & _).
+  split; [exact HR|].
+  split; [unfold coder_ok, params_ok, reps_nonneg, coder_new; cbn [c_lc c_lp c_pb c_state c_rep0 c_rep1 c_rep2 c_rep3]; repeat split; try lia; intros X; vm_compute in X; discriminate|].
+  split; [reflexivity|]. split; [rewrite Hpos; reflexivity | reflexivity].
+Qed.
